@@ -72,6 +72,12 @@ def descs():
                           constants={"t": [10, 20]},
                           vars={"v": ((), lambda v: v["v"].values),
                                 "w": (("t",), lambda v: v["w"].values)}),
+        # (each result carries a scalar coordinate of its own)
+        "xds-ncoord": dict(kind="dataset_nd", vn=[None], vd=[None],
+                           ncoord="norm",
+                           vars={"v": ((), lambda v: v["v"].values),
+                                 "w": (("t",), lambda v: v["w"].values)},
+                           vc={"t": [10, 20]}),
         "xda": dict(kind="dataarray", vn=[None], vd=[None],
                     vars={"v": (("t",), lambda v: v.values)},
                     vc={"t": [10, 20]}),
@@ -263,6 +269,14 @@ def check_case(case):
         resources=res or None, attrs=attrs or None))
     to_df = entry in ("to_df", "runner_df")
     last = None
+    # a constant the Runner stores is given again, with another value, for
+    # the judged run only: that value is used and recorded
+    okw = {}
+    if entry in ("runner", "runner_df", "label") and "k" in consts and \
+            not case.get("prev_override") and core.pick(
+                [case["spec"], case["desc"], entry, case["vn"], "ovr"], 2) == 0:
+        okw = {"constants": {"k": 5}}
+        consts["k"] = 5
     # the Runner's output names re-assigned (in the other order) after it was
     # built: the function's first output then carries the new first name
     renamed = entry in ("runner", "runner_df") and case["desc"] in (
@@ -361,12 +375,13 @@ def check_case(case):
                     last = far.last_ds
                 else:
                     if cs is None:
-                        out = runner.run_combos(combos, **kw)
+                        out = runner.run_combos(combos, **okw, **kw)
                     else:
                         out = runner.run_cases(cs_arg, fn_args=None if (
                             sigrev or kwonly or case.get("prev_override"))
                                                else list(cnames),
-                                               combos=subgrid(), **kw)
+                                               combos=subgrid(), **okw,
+                                               **kw)
                     last = runner._last_ds if not to_df else None
                     if not to_df and last is not out:
                         vio.append((key("last_ds"),
@@ -444,6 +459,26 @@ def check_case(case):
             vio.append((key("coords"), "coordinate %r is %r, swept %r (%s)"
                         % (a, got, coords[a], "given order" if cs is None
                            or a not in coords else "sorted union")))
+    if d.get("ncoord") and d["ncoord"] in ds.coords:
+        # the results' own scalar coordinate, location by location
+        nc = d["ncoord"]
+        for labels in itertools.product(*[coords[a] for a in dim_order]):
+            s_ = dict(zip(dim_order, labels))
+            if xfn.enc(dict(s_, **consts, **res)) not in full:
+                continue
+            # (along an argument with a single value the coordinate need
+            # not have been given that dimension)
+            got_c = ds[nc].sel({k_: v_ for k_, v_ in s_.items()
+                                if k_ in ds[nc].dims}).values
+            want_c = value(s_)[nc].values
+            if not np.array_equal(got_c, want_c):
+                vio.append((key("result-coord"), "coordinate %r at %r: the "
+                            "dataset has %r, the function returned %r"
+                            % (nc, s_, got_c.tolist(), want_c.tolist())))
+                break
+    elif d.get("ncoord"):
+        vio.append((key("result-coord"), "the results' coordinate %r is not "
+                    "in the dataset" % d["ncoord"]))
     for var, (idims, get) in dvars.items():
         if var not in ds.data_vars:
             vio.append((key("vars"), "variable %r missing (%r)"
